@@ -10,6 +10,7 @@ import Geo.Indexing
 import Geo.Arith
 import Geo.Spec.Euclid
 import Geo.Spec.Shapes
+import Geo.Shapes
 import Geo.Gen.Curve
 open Geo
 
@@ -160,6 +161,9 @@ def parseRVec (s : String) : Option (List Rat) := (parseVec s).map (·.map (·.r
 def showRVec (v : List Rat) : String := showTens ⟨[v.length], (v.map fun x => (⟨x, 0⟩ : Q)).toArray⟩
 def showB (b : Bool) : String := showBools [] [b]
 
+/-- affine 2-D coordinates `[x, y]` as the normalised homogeneous vector `(x, y, 1)` -/
+def affH (v : List Rat) : Nat → Rat := v3 (v.getD 0 0) (v.getD 1 0) 1
+
 def opShapes (op : String) (args : List String) : String :=
   match args.mapM parseRVec with
   | none => "bad-op"
@@ -171,6 +175,15 @@ def opShapes (op : String) (args : List String) : String :=
     | "spec.inpolygon", _ => match vs.getLast? with
       | some p => "ok " ++ showB (Spec.inPolygon vs.dropLast p)
       | none => "bad-op"
+    -- the M-layer membership models (Geo/Shapes.lean over the regenerated Geo/Gen/Shapes.lean), affine 2-D input
+    | "m.polycontains", _ => match vs.getLast? with
+      | some p => "ok " ++ showB (polyContains (vs.dropLast.map affH) (affH p))
+      | none => "bad-op"
+    | "m.segcontains", [a, b, p] => "ok " ++ showB (segContains (affH a) (affH b) (Spec.cross (affH a) (affH b)) (affH p))
+    | "m.tricontains", [a, b, c, p] => "ok " ++ showB (triContains (affH a) (affH b) (affH c) (affH p))
+    | "m.segintersect", [a, b, c, d] => match segIntersect (affH a) (affH b) (affH c) (affH d) with
+      | some x => "ok " ++ showRVec [x 0, x 1, x 2]
+      | none => "ok none"
     | "spec.shoelace2", _ => "ok " ++ showRat (Spec.shoelace2 vs)
     | "spec.vecarea2", _ => "ok " ++ showRVec (Spec.vectorArea2 vs)
     | "spec.centroidnum", _ => "ok " ++ showRVec (Spec.centroidNum vs)
@@ -288,6 +301,7 @@ def dispatch (op : String) (args : List String) : String :=
   | "spec.cr", [a, b, c, d] => match parseQ a, parseQ b, parseQ c, parseQ d with
     | some a, some b, some c, some d => "ok " ++ showQ (Spec.crParam a b c d)
     | _, _, _, _ => "bad-op"
+  | "m.polycontains", _ | "m.segcontains", _ | "m.tricontains", _ | "m.segintersect", _
   | "spec.onsegment", _ | "spec.onray", _ | "spec.intriangle", _ | "spec.inpolygon", _ | "spec.shoelace2", _
   | "spec.vecarea2", _ | "spec.centroidnum", _ => opShapes op args
   | "spec.quadform", [a, p] => match parseTens a, parseVec p with
